@@ -481,7 +481,14 @@ def _gen_op(o, g, f, cfg, cells, cols, models, rows_n, cell, spec_for):
                 items = [[t1, g.choice(['rep', 'typename']), [a_]], [t2, g.choice(['rep', 'is_none', 'typename']), [t1]], [a_, g.choice(['rep', 'typename']), [b_]]]
                 g.shuffle(items)
                 ncall = 3
-        elif r2 < 0.3 and m.cols:
+        elif r2 < 0.38 and m.cols and len(cols) >= 2:
+            # a constant (re)defines a column and, in the same call, a formula reads that column: the formula sees the constant
+            a_ = g.choice(m.cols) if g.random() < 0.7 else g.choice(cols)
+            t1 = g.choice([c for c in cols if c != a_])
+            items = [[a_, 'const', spec_for(n) if g.random() < 0.6 else {'scalar': enc(cell())}], [t1, g.choice(['rep', 'typename', 'is_none', 'ident']), [a_]]]
+            g.shuffle(items)
+            ncall = 1
+        elif r2 < 0.41 and m.cols:
             # a single callable that overwrites the column it reads
             c = g.choice(m.cols)
             items = [[c, g.choice(['rep', 'typename', 'is_none']), [c]]]
